@@ -38,6 +38,21 @@ CHECKS = {
             "1..8 connections pipeline 1..256 requests whose handlers block until a LATER request (same connection, incl. the fully reversed chain, or another connection) has entered its handler; a correct dispatcher always completes, a serial or globally locked one deadlocks. Request.ID must equal the arrival position and ConnectionID must be stable per connection and distinct across connections. A missed bound counts only with two identical goroutine censuses 0.5 s apart (otherwise inconclusive).",
             "liveness is decided as a bounded wait (15 s against a normal few ms) plus stable-census evidence",
             "DESIGN.md §4 C06"),
+    "C08": ("exploration",
+            "property-based scenario testing (rapid): connection endings x in-flight handler states x transports with gates owned by the harness; event-history invariants over a global sequence counter; goroutine and descriptor census",
+            "Generated scenarios end 1..32 connections (plain/TLS/StartTLS) by FIN, RST, Unbind, malformed frame, unsupported operation, mid-frame disconnect, recovered panic, read timeout or Stop, with 0..4 handlers blocked on a harness gate (opened only after the ending was triggered) or writing megabytes to a non-reading client. Invariants over the recorded history: exactly one OnClose per connection with the ConnectionID its handlers saw, stamped after every handler exit; the client-visible close of server-initiated endings also after every handler exit; no connection goroutine or socket descriptor left. The harness controls handler progress, not the Go scheduler.",
+            "sequence numbers are taken just before a handler returns and just after the client's read returned EOF/RST, so the comparison is sound in the direction it is used; relies on /proc/self/fd and runtime.Stack for the census",
+            "DESIGN.md §4 C08"),
+    "C09": ("exploration",
+            "stateful model-based testing (rapid action sequences over one long-lived server) + a 10^5-connection lifetime run; model = tag -> ConnectionID map",
+            "Open / request / long session / concurrent burst / close / reopen sequences with up to 64 connections open at once are run against one server; every request of a connection must report the same positive ConnectionID, IDs must be pairwise different over the server's whole life, and OnClose must deliver exactly the closed connection's ID once. The lifetime part opens up to 10^5 connections from 16 goroutines against one server.",
+            "client-chosen tag travels in the message ID; OnClose is waited for after every close so the model and the server stay in step",
+            "DESIGN.md §4 C09"),
+    "C10": ("exploration",
+            "property-based scenario testing (rapid): pipelines <requests> Unbind <requests> with split writes, optional unbind/default routes and gated earlier handlers; event-history + client-side stream oracle",
+            "Generated pipelines put 0..8 requests behind an Unbind (same write() or split at generated offsets) while any subset of the 0..8 earlier handlers is held on a gate; the oracle demands no handler entry and no response for anything after the Unbind, no response to the Unbind, the unbind handler exactly once iff registered, every earlier request answered once, and the close (client EOF and OnClose) stamped after every earlier handler's exit.",
+            "the gate opens 0..40 ms after sending; a missing close is reported after 8 s (a correct server needs milliseconds after the gate opens)",
+            "DESIGN.md §4 C10"),
     "C14": ("exploration",
             "property-based round-trip testing (rapid) of controls in both directions with three independent encoders / two independent decoders; constructor law for the Behera control",
             "Request direction: 0..6 generated controls per message, each encoded by the harness's RFC-shape encoder, by gldap's own Encode or by go-ldap's Encode, decoded by the server's request path and compared field by field (type, criticality, page size, cookie, expire, grace, error + string, value) in order. Response direction: controls built with the exported constructors, written on Bind/SearchDone responses by a real handler, recovered by the harness's strict parser and by go-ldap's DecodeControl. Constructor: every subset/order of the three Behera options, error or at most one set and error <= 8. Exploration.",
